@@ -36,10 +36,16 @@ def run_one(hname, s):
     from asyncfix import FIXMessage
 
     h = HARNESSES[hname]
+    import os
+    from asyncfix import Journaler
+    from mc.world import TmpDir, committed_counters
+    # file-backed journal: the stored counter is read through a brand-new connection (committed data only)
+    tmp = TmpDir()
+    jpath = os.path.join(tmp.path, "j.db")
     if h["pre"] == -2:
-        w = World1("initiator", S=CFG["S"], T=CFG["T"], logon_on_connect=False)
+        w = World1("initiator", S=CFG["S"], T=CFG["T"], logon_on_connect=False, journal=Journaler(jpath))
     else:
-        w = World1("acceptor", S=CFG["S"], T=CFG["T"])
+        w = World1("acceptor", S=CFG["S"], T=CFG["T"], journal=Journaler(jpath))
     try:
         c = w.c
         loop = w.loop
@@ -163,10 +169,11 @@ def run_one(hname, s):
             pre_frames.append((d.get("35"), int(d.get("34", 0) or 0), d.get("43"), d.get("11")))
         rows = {seq: m for (_, d, seq, m) in journal_rows(w.j) if d == 1}
         return {"frames": frames, "pre": pre_frames, "results": results, "live_out": num_out(c),
-                "stored": stored_counters(w.j, w.T, w.S), "rows": sorted(rows), "state": c.connection_state.name,
+                "stored": committed_counters(jpath, w.T, w.S), "rows": sorted(rows), "state": c.connection_state.name,
                 "stuck": [i for i, t in started.items() if t is not None and not t.done()]}
     finally:
         w.close()
+        tmp.cleanup()
 
 
 def judge(hname, obs, s):
